@@ -28,7 +28,7 @@ K_ALLOC = 256          # bytes of TotalAlloc per input byte ...
 K0_ALLOC = 1 << 17     # ... plus this much (measured on the valid seed streams: see evidence "valid_alloc")
 HEAVY_STEPS = 2 * 10 ** 7
 HEAVY_ALLOC = 1 << 24
-HANG_STEPS = 5 * 10 ** 9       # model steps above which the executor's 6 s watchdog must fire
+HANG_STEPS = 5 * 10 ** 9       # model steps above which the executor's 4 s watchdog must fire
 FAST_STEPS = 10 ** 6           # below this a watchdog timeout is not expected
 
 # ------------------------------------------------------------------ shapes
@@ -195,7 +195,7 @@ def impl_verdict(case, o, crash):
             own = loop_owner(crash[3] if len(crash) > 3 else [])
             if own == "io.strConverter":     # fmt.Sprint of a map that contains itself: killed before the 1 GB stack limit
                 return "fatal", "fatal:stack-overflow:io.strConverter", "unbounded recursion (watchdog fired before the stack limit)"
-            return "fatal", "hang:" + own, "no result within the watchdog's 6 s"
+            return "fatal", "hang:" + own, "no result within the watchdog's 4 s"
         if "executor watchdog: memory" in err:
             return "fatal", "overalloc:" + loop_owner(crash[3] if len(crash) > 3 else []), "heap above 1 GiB"
         cl = fatal_class(err)
@@ -486,7 +486,7 @@ def generate(ctx, seeds):
         U("o5{}"), U("o0{}"), U("o-1{}"), U('c1"A"1{s1"f"}o0{1}'), U('c1"A"1{s1"f"}o1{1}'),
         U("lxyz;", {"k": "bigrat"}), U("l12;", {"k": "bigrat"}), U("lxyz;", {"k": "bigint"}),
         U("a-1{}"), U("a-1{}", {"k": "slice", "e": {"k": "int"}}), U("a-1{}", {"k": "bytes"}),
-        U("a-3{}", {"k": "array", "n": 2, "e": {"k": "int"}}),
+        U("a-3{}", {"k": "array", "n": 2, "e": {"k": "int"}}), U("a-100000000{}", {"k": "array", "n": 2, "e": {"k": "int"}}),
         U("m-1{}"), U("m-1{}", {"k": "map", "key": {"k": "string"}, "e": I_}),
         U("u\xf0ab"), U("u\xf0\x9f\x98\x80"), U('s1"\xf0\x9f\x98\x80"'), U('s2"\xf0\x9f\x98\x80"'),
         U('b-5"abc'), U('b3"abc"'), U('b99999"abc'), U('s99999"abc'),
@@ -704,8 +704,8 @@ def run(ctx):
             continue
         big = (m.get("steps", 0) > HEAVY_STEPS or m.get("alloc", 0) > HEAVY_ALLOC or len(c["hex"]) > 400000)
         (heavy if big else light).append(c)
-    budget = 14 if ctx.tier == "quick" else 60
-    hang_budget = 4 if ctx.tier == "quick" else 14
+    budget = 12 if ctx.tier == "quick" else 60
+    hang_budget = 3 if ctx.tier == "quick" else 14
     chosen, sig_seen = [], {}
     for c in sorted(heavy, key=lambda c: len(c["hex"])):
         m = model[c["id"]]
@@ -723,7 +723,7 @@ def run(ctx):
         chosen.append(c)
     ctx.note("heavy_cases", {"model_predicted": len(heavy), "executed": len(chosen)})
 
-    obs, crashes = run_impl_frames(light, 4000, 6 if ctx.tier == "quick" else 30)
+    obs, crashes = run_impl_frames(light, 4000, 4 if ctx.tier == "quick" else 30)
     T["impl_light"] = round(time.time() - t0, 1); t0 = time.time()
     obs2, crashes2 = run_impl_frames(chosen, 200, 20)
     T["impl_heavy"] = round(time.time() - t0, 1); t0 = time.time()
@@ -789,6 +789,8 @@ def run(ctx):
             if cur is None or n < cur[0]:
                 disagree[dk] = (n, c, what, m["raw"], bad)
     ctx.note("correspondence", stats)
+    ctx.note("disagreements", [{"kind": k, "entry": v[1]["entry"], "hex": v[1]["hex"][:120], "t": v[1].get("t") or v[1].get("rt") or v[1].get("svc"),
+                                "mode": v[1].get("mode"), "model": v[3][:120], "impl": v[2][:80]} for k, v in sorted(disagree.items())][:30])
     ctx.note("valid_alloc", {"max_TotalAlloc_on_valid_streams": max_valid_alloc, "max_bytes_per_input_byte": round(max_ratio, 1),
                              "K": K_ALLOC, "K0": K0_ALLOC})
     ctx.note("oracle_texts_answered", len(oracle_cache))
